@@ -5,15 +5,19 @@ C06 concrete model: transcription of `Scope` and its helpers in
 `*cypher.Parameter` cases, unwind.go prepareUnwindTarget, projection.go ensureProjectionAliasBinding,
 with.go translateWith, quantifiers.go). Core Lean only (the driver imports this file).
 
-The model is generic in the KEY type `K` of the alias table so that the code as it is (`K = String`:
-variables, projection aliases and parameters all keyed by their bare spelling — one shared table) and the
-repaired scope (`K = USym`: namespace-tagged keys, i.e. separate key spaces) are two instances of the same
-definitions.  Identifiers of `definitions` are strings exactly as in Go, so a user spelling such as "n0"
-IS equal to the generated identifier "n0".
+The model is generic in the KEY type `K` of the alias table.  The LIVE definition (the code after the fix
+"separate alias key space for parameters": `Scope.aliases` for variables and projection aliases,
+`Scope.parameterAliases` + `AliasParameter` / `ParameterLookup` for parameters) is the instance `K = USym`:
+namespace-tagged keys, i.e. the two Go maps seen as one table whose keys carry the map they belong to.
+The OLD definition (one table keyed by the bare spelling, shared by variables, aliases and parameters) is the
+instance `K = String` reached through `USym.erase`; it is kept only for the refutation `…_old` theorems (F10).
+Identifiers of `definitions` are strings exactly as in Go, so a user spelling such as "n0" IS equal to the
+generated identifier "n0".
 
 Go maps are modelled as association lists with unique keys (`Assoc.set` erases the key first); nothing
-observable depends on their order except `PruneDefinitions`' first-match loop over `aliases`, which is
-order-independent because alias values are pairwise distinct on reachable scopes (proved in Props/C06).
+observable depends on their order except `PruneDefinitions`' first-match loops over the alias maps, which are
+order-independent because alias values are pairwise distinct on reachable scopes (proved in Props/C06; for the
+same reason "first match in `aliases`, first match in `parameterAliases`" is "first match in the tagged table").
 -/
 namespace Dawgs.C06
 
@@ -271,7 +275,7 @@ inductive Op (K : Type) where
   | bindPattern (k : Option K) (dt : DataType)   -- pattern.go bindPatternExpression
   | bindPath (k : K)                             -- pattern.go translatePatternPart
   | useVariable (k : K)                          -- translator.go case *cypher.Variable
-  | useParameter (k : Option K)                  -- translator.go case *cypher.Parameter (none = empty symbol)
+  | useParameter (k : Option K)                  -- translator.go case *cypher.Parameter: ParameterLookup / AliasParameter (none = empty symbol)
   | unwindTarget (k : K)                         -- unwind.go prepareUnwindTarget
   | ensureAlias (k : K) (dt : DataType)          -- projection.go ensureProjectionAliasBinding
   | withProject (id : Ident) (k : Option K)      -- with.go translateWith, identifier select item
@@ -419,7 +423,7 @@ inductive USym where
   | param (name : String)    -- $name
 deriving DecidableEq, Repr
 
-/-- what the code does: `pgsql.Identifier(x.Symbol)` for both -/
+/-- what the OLD code did: `pgsql.Identifier(x.Symbol)` as the key of ONE table for both namespaces -/
 def USym.erase : USym → String
   | .var n => n
   | .param n => n
@@ -428,11 +432,11 @@ def USym.rename (rv rp : String → String) : USym → USym
   | .var n => .var (rv n)
   | .param n => .param (rp n)
 
-/-- the code as it is: ONE alias table keyed by the bare spelling -/
-def goResults (p : List (Op USym)) : List Res := results (p.map (Op.mapKeys USym.erase))
+/-- LIVE definition: variables/aliases and parameters are looked up in separate tables (namespace-tagged keys) -/
+def liveResults (p : List (Op USym)) : List Res := results p
 
-/-- the repaired scope: namespace-tagged keys (separate key spaces for variables and parameters) -/
-def fixedResults (p : List (Op USym)) : List Res := results p
+/-- OLD definition (before the fix of F10): ONE alias table keyed by the bare spelling -/
+def sharedResults_old (p : List (Op USym)) : List Res := results (p.map (Op.mapKeys USym.erase))
 
 /-! ### string-level lookups that mix the two identifier kinds (Go only) -/
 
